@@ -21,11 +21,11 @@ type C14Rel struct {
 type C14Case struct {
 	Pool      int      `json:"pool"`
 	Rels      []C14Rel `json:"rels"`
-	PreTerm   bool     `json:"pre_term"`   // the remote target terminates (normally) before the fault
-	InFlight  string   `json:"in_flight"`  // "" | call | important
-	Fault     string   `json:"fault"`      // cutall | cutone | stop | crash | restart | partition
+	PreTerm   bool     `json:"pre_term"`    // the remote target terminates (normally) before the fault
+	InFlight  string   `json:"in_flight"`   // "" | call | important
+	Fault     string   `json:"fault"`       // cutall | cutone | stop | crash | restart | partition
 	FaultAtMs int      `json:"fault_at_ms"` // relative to the start of the in-flight request
-	RestartMs int      `json:"restart_ms"` // restart: delay before the node comes back
+	RestartMs int      `json:"restart_ms"`  // restart: delay before the node comes back
 	Segment   bool     `json:"segment"`
 }
 
